@@ -463,6 +463,9 @@ def main(prop, tier, seed):
                                   "[cli-vs-api] model %d for %s in one process: %s differ(s) from the fresh-process reference" % (mid, target, ", ".join(which)), dict(model=mid, target=target))
         finally:
             shutil.rmtree(d, ignore_errors=True)
+        # sessions of the command line in one directory (spec/PotableFS.tla): the file written is a function of the options alone
+        from engines import potfs
+        potfs.check(run, tier, seed + 1, clause_engine="session")
         napi = api_histories(run) + mutable_callable_history(run)
         run.evaluations += napi
         run.notes["api_shared_callable_histories"] = napi
